@@ -7,11 +7,11 @@ chk("C02", "E3-bfs", "model_checking",
     "Same trusted base as C01.",
     "explicit-state BFS of the implementation with invariant on every state", "5/C02")
 chk("C04", "E1-sched", "exploration",
-    "All interleavings (at the stated preemption bound) of 2-3 concurrent single/batch attestation, proposal and generic requests on colliding keys are executed on the real ruler, locker (every sync operation under scheduler control), rules and badger; every complete execution must be linearizable against the sequential watermark specification, including decoded final records. Bounded-exhaustive: the CHESS result that real concurrency bugs need very few preemptions is why a preemption bound is the right cut.",
+    "All interleavings (at the stated preemption bound) of 2-3 concurrent single/batch attestation, proposal and generic requests on colliding keys are executed on the real ruler, locker (every sync operation under scheduler control), rules and badger; every complete execution must be linearizable against the sequential watermark specification, including decoded final records. The alphabet includes callers that give up (context cancelled before the request arrives, or by a cancel step the scheduler places anywhere). Work that the code detaches from a request (a goroutine that outlives or runs beside its request) is detected and the scenario is then explored with every goroutine as a thread and steps delimited by process-wide quiescence. Bounded-exhaustive: the CHESS result that real concurrency bugs need very few preemptions is why a preemption bound is the right cut.",
     "Trusted: each badger call is atomic; no unsynchronised shared data between scheduling points (only the sync operations of locker/syncmap and the store calls are points); GOMAXPROCS=1 in explorer processes.",
     "stateless preemption-bounded schedule enumeration of the implementation + brute-force linearizability check", "5/C04, Appendix A")
 chk("C15", "E1-sched", "exploration",
-    "All interleavings (preemption-bounded) of 2-4 concurrent batches whose key lists are ordered selections from a shared key set, in lock-only mode (approve-all rules) and with the real rules and store; a state with unfinished threads and no enabled thread is a deadlock, detected exactly because the shim is the mutex.",
+    "All interleavings (preemption-bounded) of 2-4 concurrent batches whose key lists are ordered selections from a shared key set, in lock-only mode (approve-all rules) and with the real rules and store; plus requests refused early and callers that give up before or during their request; a state with unfinished threads and no enabled thread is a deadlock, detected exactly because the shim is the mutex.",
     "Trusted: as C04. The sustained-random-load clause of the property is not decided (sampling).",
     "stateless preemption-bounded schedule enumeration with exact deadlock detection", "5/C15, Appendix A")
 chk("C09", "E3-bfs", "model_checking",
